@@ -44,6 +44,7 @@ func genConfigDiff(r *vk.RNG, a *app.App, sid string) app.Config {
 	cfg := genConfig(r, a, sid)
 	cfg.ResetOnEmptyInput = r.Chance(1, 5)
 	cfg.PersisterContent = r.Chance(1, 4)
+	cfg.Debug = r.Chance(1, 6)
 	return cfg
 }
 
